@@ -90,7 +90,7 @@ Lemma fill_defaults_keeps i n :
   w_iflen (fill_defaults i n) = w_iflen n /\ w_ifid (fill_defaults i n) = w_ifid n /\
   w_alloc (fill_defaults i n) = w_alloc n /\ w_attach_eni (fill_defaults i n) = w_attach_eni n /\
   (w_nsg n <> 0 -> w_nsg (fill_defaults i n) = w_nsg n).
-Proof. unfold fill_defaults. destruct (is_eth0 n); cbn; repeat split; try reflexivity.
+Proof. unfold fill_defaults; cbn; repeat split; try reflexivity.
   intros H. destruct (w_nsg n =? 0) eqn:E; [lia | reflexivity]. Qed.
 
 Definition complete (i : inp) (ns : list pnet) (c : Z) : Prop :=
@@ -139,3 +139,132 @@ Proof.
     + destruct vs; [destruct nets; [congruence | discriminate]|discriminate].
     + intros ->. reflexivity.
 Qed.
+
+(* every entry of a patched pod carries vSwitches and security groups whenever the cluster's
+   eni-config provides some (entries that bring their own keep them) *)
+Lemma finish_filled i nets vz ns c e aff :
+  Forall alloc_in nets -> finish i nets vz = Patched ns c e aff ->
+  i_cfg_nvsw i <> 0 -> i_cfg_nsg i <> 0 ->
+  Forall (fun n => w_nvsw n <> 0 /\ w_nsg n <> 0) ns.
+Proof.
+  intros Hal. unfold finish.
+  destruct (validate (i_fixed_name i) [] nets) as [|vs req up] eqn:Ev; [discriminate|].
+  destruct (validate_ok _ _ _ _ _ _ Hal Ev) as (_ & _ & _ & _ & _ & H5 & _).
+  destruct (req && negb (i_cfg_ok i)); [discriminate|].
+  intros H Hv Hs; inversion H; subst; clear H.
+  destruct req.
+  - rewrite Forall_forall. intros y Hy. apply in_map_iff in Hy as (x & <- & _).
+    unfold fill_defaults; cbn [w_nvsw w_nsg].
+    destruct (w_nvsw x =? 0) eqn:E1; destruct (w_nsg x =? 0) eqn:E2; split; try assumption; lia.
+  - exact (H5 eq_refl).
+Qed.
+
+Lemma finish_sg i nets vz ns c e aff :
+  Forall alloc_in nets -> finish i nets vz = Patched ns c e aff ->
+  i_cfg_nsg i <= 10 -> Forall (fun n => w_nsg n <= 10) ns.
+Proof.
+  intros Hal. unfold finish.
+  destruct (validate (i_fixed_name i) [] nets) as [|vs req up] eqn:Ev; [discriminate|].
+  destruct (validate_ok _ _ _ _ _ _ Hal Ev) as (H1 & _).
+  destruct (req && negb (i_cfg_ok i)); [discriminate|].
+  intros H Hs; inversion H; subst; clear H.
+  assert (Hvs : Forall (fun n => w_nsg n <= 10) vs).
+  { rewrite Forall_forall in *. intros x Hx. destruct (H1 x Hx) as (_ & Hx2 & _). exact Hx2. }
+  destruct req; [|exact Hvs].
+  rewrite Forall_forall in *. intros y Hy. apply in_map_iff in Hy as (x & <- & Hx).
+  unfold fill_defaults; cbn [w_nsg]. specialize (Hvs x Hx). destruct (w_nsg x =? 0); lia.
+Qed.
+
+(* ---- proofs of the statements in Props_C18.v ---- *)
+Lemma c18_untouched_hostnet_ignored_pf : forall i,
+  i_hostnet i = true \/ (i_ncont i <> 0 /\ i_ignored i = true) -> pod_webhook i = Allowed.
+Proof. intros i [H|[Hc H]]; unfold pod_webhook; rewrite H; [reflexivity|].
+  destruct (i_hostnet i); [reflexivity|]. destruct (i_ncont i =? 0) eqn:E; [reflexivity|]. reflexivity. Qed.
+
+Lemma c18_untouched_no_match_pf : forall i,
+  i_crd i = false -> i_use_eni i = false ->
+  i_has_nets i = false -> i_has_req i = false -> i_has_pning i = false ->
+  i_ns_exists i = true -> (i_fixed_name i && i_prev_err i = false) ->
+  match_one (i_fixed_name i) (i_pns i) = None -> pod_webhook i = Allowed.
+Proof.
+  intros i Hc Hu H1 H2 H3 Hns Hpe Hm. unfold pod_webhook. rewrite H1, H2, H3, Hc, Hu, Hns, Hpe, Hm. cbn [andb orb negb].
+  destruct (i_hostnet i); [reflexivity|]. destruct (i_ncont i =? 0); [reflexivity|]. destruct (i_ignored i); [reflexivity|].
+  destruct (i_pns i); reflexivity.
+Qed.
+
+Lemma c18_conflicting_annotations_denied_pf : forall i,
+  i_hostnet i = false -> i_ncont i <> 0 -> i_ignored i = false ->
+  ((i_has_nets i && i_has_req i) || (i_has_nets i && i_has_pning i) || (i_has_req i && i_has_pning i)) = true ->
+  pod_webhook i = Denied.
+Proof. intros i H1 H2 H3 H4. unfold pod_webhook. rewrite H1, H3, H4.
+  destruct (i_ncont i =? 0) eqn:E; [apply Z.eqb_eq in E; contradiction | reflexivity]. Qed.
+
+Lemma webhook_patched_via_finish : forall i ns c e aff,
+  Forall alloc_in (i_nets i) -> pod_webhook i = Patched ns c e aff ->
+  exists nets vz, nets <> [] /\ Forall alloc_in nets /\ finish i nets vz = Patched ns c e aff.
+Proof.
+  intros i ns c e aff Hal. unfold pod_webhook.
+  assert (Hd : alloc_in {| w_iflen := 4; w_ifid := 1; w_nvsw := 0; w_nsg := 0; w_alloc := 0; w_attach_eni := false |})
+    by (unfold alloc_in; cbn; split; discriminate).
+  assert (Hk : forall k a b, alloc_in (of_pn k a b)) by (intros k a b; unfold alloc_in, of_pn; cbn; destruct (k_fixed k); split; discriminate).
+  destruct (i_hostnet i); [discriminate|].
+  destruct (i_ncont i =? 0); [discriminate|].
+  destruct (i_ignored i); [discriminate|].
+  match goal with |- (if ?b then _ else _) = _ -> _ => destruct b; [discriminate|] end.
+  match goal with |- (if ?b then _ else _) = _ -> _ => destruct b; [discriminate|] end.
+  match goal with |- (if ?b then _ else _) = _ -> _ => destruct b; [discriminate|] end.
+  cbv zeta.
+  destruct (if i_has_nets i then i_nets i else []) as [|n0 r0] eqn:En.
+  - repeat match goal with
+           | |- (if ?b then _ else _) = _ -> _ => destruct b; try discriminate
+           end.
+    destruct (if i_has_req i then i_reqs i else []) as [|q0 qr] eqn:Eq.
+    + destruct (i_pns i) as [|k0 kr] eqn:Ep.
+      * destruct (negb (i_crd i) && negb (i_use_eni i)); [discriminate|].
+        intros H; eexists _, _; split; [|split; [|exact H]]; [discriminate | constructor; [exact Hd | constructor]].
+      * destruct (negb (i_ns_exists i)); [discriminate|].
+        destruct (match_one (i_fixed_name i) (k0 :: kr)) as [k|].
+        -- intros H; eexists _, _; split; [|split; [|exact H]]; [discriminate | constructor; [apply Hk | constructor]].
+        -- destruct (negb (i_crd i) && negb (i_use_eni i)); [discriminate|].
+           intros H; eexists _, _; split; [|split; [|exact H]]; [discriminate | constructor; [exact Hd | constructor]].
+    + destruct (requests true [] (q0 :: qr)) as [[rs z]|] eqn:Er; [|discriminate].
+      destruct (requests_zones _ _ _ _ _ Er) as (_ & _ & Hlen).
+      intros H; exists rs, z; split; [|split; [|exact H]].
+      * destruct rs; [cbn in Hlen; discriminate Hlen | intro Hx; discriminate Hx].
+      * clear -Er Hk. revert Er. generalize true, (@nil Z). revert rs z.
+        induction (q0 :: qr) as [|q l IH]; intros rs z f acc; cbn [requests].
+        -- intros H; inversion H; constructor.
+        -- destruct (negb _ || negb _ || _); [discriminate|].
+           destruct (requests false _ l) as [[ns' z']|] eqn:E; [|discriminate].
+           intros H; inversion H; subst. constructor; [destruct (q_iflen q =? 0); apply Hk | eapply IH; exact E].
+  - intros H; exists (n0 :: r0), []; split; [|split; [|exact H]]; [discriminate|].
+    destruct (i_has_nets i); [rewrite <- En; exact Hal | discriminate].
+Qed.
+
+Lemma c18_complete_pf : forall i ns c e aff,
+  Forall alloc_in (i_nets i) -> pod_webhook i = Patched ns c e aff -> complete i ns c.
+Proof.
+  intros i ns c e aff Hal H. destruct (webhook_patched_via_finish _ _ _ _ _ Hal H) as (nets & vz & Hne & Hal' & Hf).
+  exact (finish_complete _ _ _ _ _ _ _ Hne Hal' Hf).
+Qed.
+
+Lemma c18_vswitch_sg_present_pf : forall i ns c e aff,
+  Forall alloc_in (i_nets i) -> pod_webhook i = Patched ns c e aff ->
+  i_cfg_nvsw i <> 0 -> i_cfg_nsg i <> 0 ->
+  Forall (fun n => w_nvsw n <> 0 /\ w_nsg n <> 0) ns.
+Proof.
+  intros i ns c e aff Hal H. destruct (webhook_patched_via_finish _ _ _ _ _ Hal H) as (nets & vz & _ & Hal' & Hf).
+  exact (finish_filled _ _ _ _ _ _ _ Hal' Hf).
+Qed.
+
+Lemma c18_at_most_ten_sg_pf : forall i ns c e aff,
+  Forall alloc_in (i_nets i) -> pod_webhook i = Patched ns c e aff ->
+  i_cfg_nsg i <= 10 -> Forall (fun n => w_nsg n <= 10) ns.
+Proof.
+  intros i ns c e aff Hal H. destruct (webhook_patched_via_finish _ _ _ _ _ Hal H) as (nets & vz & _ & Hal' & Hf).
+  exact (finish_sg _ _ _ _ _ _ _ Hal' Hf).
+Qed.
+
+Lemma c18_zone_affinity_pf : forall qs ns z,
+  requests true [] qs = Some (ns, z) -> forall q, In q qs -> incl z (k_zones (q_pn q)).
+Proof. intros qs ns z H. exact (proj1 (requests_zones _ _ _ _ _ H)). Qed.
